@@ -156,6 +156,9 @@ class Sandbox:
     def apply_mutation(self, m):
         """Apply one external mutation (ensure-semantics; never fails)."""
         op = m[0]
+        if len(m) > 1 and isinstance(m[1], str) and any(
+                len(c.encode()) > 255 for c in m[1].split('/')):
+            return
         if op == 'write':
             path = self.p(m[1])
             if path == self.cache:
